@@ -191,7 +191,8 @@ var urlKeys = []string{"a", "b", "z", "m", "q", "id", "ID", "x+y", "%41", "a%26b
 var urlVals = []string{"1", "2", "3", "4", "", "x+y", "%20", "%41", "a%26b", "%3D", "%E4%BD%A0", "http://o.example/p?x=1", "a:b", "-_.~", "v!", "%2B",
 	"a b", "it's", "<v>", "\"v\"", "%3c", "%27", " ", "[1]", "%7E~"}
 var urlBadPieces = []string{"k=%zz", "%=1", "a%2", "a;b=1", ";", "k=v=w", "=", "=v", "%", "x=%4", "%<=1", "k=%a'", "k=%'a"}
-var urlFrags = []string{"", "top", "a/b?c=d", "sec-1", "x=1&y=2", "a b", "%41", "it's", "\"q\"", "<f>"}
+var urlFrags = []string{"", "top", "a/b?c=d", "sec-1", "x=1&y=2", "a b", "%41", "it's", "\"q\"", "<f>",
+	"sec#2", "a#b#c", "#", "##", "x#", "#x", "%23", "s%23t", "s%23t#u", "?#", "a?b#c?d", "/#/"}
 var urlOtherSchemes = []string{"ftp", "ws", "wss", "gopher", "foo", "FTP", "h2", "javascript", "httpx", "htt"}
 
 func genHost(r *Rng) []string {
@@ -476,7 +477,8 @@ var urlOddTexts = []string{
 	"www.example.com", "www.example.com:8080/x", "example.com/a/../b?z=1&a=2", "//example.com", "/path", "../x", "a/b", "?z=1&a=2", "#f", "a.b", "a.b?x#y",
 	"http://a.b/?z=1&a=2&m=3&z=4", "http://preview.redd.it/x?b=1&a='2'", "http://a.b:80/", "https://a.b:443/", "http://a.b:443/", "https://a.b:80/", "http://a.b?", "http://a.b?#", "http://a.b/?&&", "http://a.b/?=",
 	"http://a.b/a/./b/../c/%2e%2e/d/.", "http://a.b/..", "http://a.b/../..", "http://a.b//", "http://a.b//..//x", "http://a.b/x/%2E", "http://a.b/.%2e/x",
-	"http://a.b/[x]", "http://a.b/{x}|^`", "http://a.b/%41 b", "http://a.b/x?a= ", "x?a= ", "%2fa/b", "%2Fa", "/x'", "x/y'", "?&", "%2e%2e%2fx|", "x%2fy^z", "http://a.b/d/%2e%2e%2fx|",
+	"http://a.b/[x]", "http://a.b/{x}|^`", "http://a.b/%41 b", "http://a.b/x?a= ", "x?a= ", "%2fa/b", "%2Fa", "/x'", "x/y'", "?&",
+	"other.html#sec#2", "http://a.b/x#s#2", "//o.example/p#s#2#3", "\\\\a.b\\c#s#2", "http:\\\\a.b\\c#s#2", "/p?#f#g", "x?#", "x#", "#", "##", "x#%23", "x%23y#z#", "?q#a#b", "//o.example#a#b", "http://a.b#a#b", "http://a.b/x?y#a?b#c", "%2e%2e%2fx|", "x%2fy^z", "http://a.b/d/%2e%2e%2fx|",
 	"http://" + strings.Repeat("a", 64) + ".com/", "http://" + strings.Repeat("a.", 130) + "com/", "http://a.b/" + strings.Repeat("x/", 300),
 }
 
@@ -782,7 +784,7 @@ func hasDotSeg(p []string) bool {
 func execURL(input string) Result {
 	var in urlInput
 	if err := json.Unmarshal([]byte(input), &in); err != nil {
-		return Result{Term: "UC None None (hx \"\") None [] None", Tags: []string{"bad-input"}}
+		return Result{Term: "UC None None (hx \"\") None [] None None", Tags: []string{"bad-input"}}
 	}
 	var gtext, ptext *string
 	var text, ast string
@@ -958,8 +960,33 @@ func execURL(input string) Result {
 	if ptext != nil {
 		pt = "(Some " + coqBytes(*ptext) + ")"
 	}
+	// the text cut at its first '#' (monitor 6: the fragment plays no role)
+	nofrag := "None"
+	if tt := strings.Trim(text, "\"'"); strings.Contains(tt, "#") {
+		pre := tt[:strings.IndexByte(tt, '#')]
+		inner := strings.Count(tt, "#") - 1
+		switch {
+		case inner == 0:
+			tags = append(tags, "frag:plain")
+		case inner == 1:
+			tags = append(tags, "frag:1-inner-hash")
+		default:
+			tags = append(tags, "frag:2+inner-hash")
+		}
+		if strings.HasSuffix(pre, "?") {
+			tags = append(tags, "frag:after-bare-?")
+		}
+		if pre != "" {
+			o := normOnce(pre, mkParent(true))
+			oc := o.coq()
+			if o == first {
+				oc = "o"
+			}
+			nofrag = fmt.Sprintf("(Some (%s, %s))", coqBytes(pre), oc)
+		}
+	}
 	return Result{
-		Term:       fmt.Sprintf("(let o : obs := %s in UC %s %s %s %s %s %s)", o0, ast, pt, coqBytes(text), pcanon, coqList(outs), again),
+		Term:       fmt.Sprintf("(let o : obs := %s in UC %s %s %s %s %s %s %s)", o0, ast, pt, coqBytes(text), pcanon, coqList(outs), again, nofrag),
 		Tags:       tags,
 		Nontrivial: first.kind == "ok" && (pc != nil || first.text != text),
 	}
